@@ -168,6 +168,20 @@ pub fn nv_run(a: &Args) -> Args {
     assert_eq!(pairs, pm, "shared and mutable iterators disagree");
     assert_eq!(rest, restm, "shared and mutable remainders disagree");
 
+    // the other ways of driving the decoder agree with next(): nth(k), count(), last(), skip(k) for small inputs
+    if d.len() <= 64 {
+        for k in 0..=pairs.len() + 1 {
+            let mut it2 = nv::NVIter::new(&d[..]);
+            let got = it2.nth(k).map(|(n, v)| (n.to_vec(), v.to_vec()));
+            assert_eq!(got, pairs.get(k).cloned(), "nth({k}) disagrees with repeated next()");
+            let after: Vec<(Vec<u8>, Vec<u8>)> = (&mut it2).map(|(n, v)| (n.to_vec(), v.to_vec())).collect();
+            let exp_after: Vec<(Vec<u8>, Vec<u8>)> = pairs.iter().skip(k + 1).cloned().collect();
+            assert_eq!(after, exp_after, "pairs yielded after nth({k}) differ");
+            assert_eq!(it2.into_inner(), &rest[..], "the remainder after nth({k}) and exhaustion is not the undecoded suffix");
+        }
+        assert_eq!(nv::NVIter::new(&d[..]).count(), pairs.len(), "count() disagrees");
+        assert_eq!(nv::NVIter::new(&d[..]).last().map(|(n, v)| (n.to_vec(), v.to_vec())), pairs.last().cloned(), "last() disagrees");
+    }
     let mut out = vec![vec![pairs.len() as u128], vec![hint.1.expect("upper bound") as u128]];
     for (n, v) in &pairs {
         out.push(nums(n));
